@@ -36,4 +36,17 @@ theorem search_continues_while_the_bracket_is_longer (fpos fneg len tol : ℝ) (
 example : GenRs.bisect_continue 1 0 (20 : ℝ) (1 / 1000) = true := by
   apply search_continues_while_the_bracket_is_longer; norm_num
 
+/-! ### the stations `FitRadiusEdge` adds while walking into an edge are searched with the ANALYSIS tolerance -/
+
+/-- the tolerance handed to the search is a hundredth of the analysis tolerance — whatever the edge method's own
+    circle-fit tolerance is — and so at most the analysis tolerance: the added stations are stations like any other -/
+theorem added_stations_use_the_analysis_tolerance (af_tol check_tol check_tol' : ℝ) (h : 0 ≤ af_tol) :
+    GenRs.fit_edge_station_tol af_tol check_tol = af_tol / 100 ∧
+    GenRs.fit_edge_station_tol af_tol check_tol = GenRs.fit_edge_station_tol af_tol check_tol' ∧
+    GenRs.fit_edge_station_tol af_tol check_tol ≤ af_tol := by
+  unfold GenRs.fit_edge_station_tol
+  rw [ofRatR]
+  refine ⟨by norm_num; ring, rfl, ?_⟩
+  norm_num; linarith
+
 end C10U
